@@ -8,7 +8,7 @@ def cache_wrappers_touching_internals : List Nat := []
 def expiry_cleanup_not_conditional : List Nat := []
 def grow_pairs : List (List Nat) := [[8, 6], [16, 12], [32, 24], [8, 6], [16, 12], [32, 24], [16, 12], [32, 24], [64, 48], [16, 12], [32, 24], [64, 48], [32, 24], [64, 48], [128, 96], [32, 24], [64, 48], [128, 96], [64, 48], [128, 96], [256, 192], [64, 48], [128, 96], [256, 192], [256, 192], [512, 384], [1024, 768], [2048, 1536], [4096, 3072], [8192, 6144], [262144, 196608], [524288, 393216], [1048576, 786432]]
 def len_functions_touching_locks : List Nat := []
-def limiter_cleanup_locks : List Nat := [1, 1]
+def limiter_cleanup_locks : List Nat := [1, 0]
 def limiter_global_locks : Nat := 1
 def mutators_without_write_lock : List Nat := []
 def seg_counts : List Nat := [16, 16, 16, 16, 16, 32, 64, 128, 256, 256, 256]
